@@ -82,6 +82,22 @@ CHECKS = {
          "Trusted: synthetic source hashes and empty host fingerprints for the Build-Id computation; sandbox (in)sensitivity is "
          "decided from the model (no fingerprinted step in the dependency closure).",
          "3 (C03)", "E2 projgen, E5 pkgdump"),
+ "C04": ("exploration",
+         "Hypothesis project + edit-history generation; differential oracle warm (all in-memory and on-disk caches) vs cold (PackageMatcher disabled, empty directory) on a full graph dump and path queries; Bob's own pkgck assertion",
+         "After every edit of a generated history the package graph computed in the long-lived, cache-warm directory must equal the "
+         "graph computed without any cache in a fresh directory (names, structure, scripts, environments, tools, sandbox, ids, paths) "
+         "and three path queries must agree; sandbox mode alternates between states.",
+         "Trusted: the graph dump through the public API (vlib/pkgdump.py). The cold side disables package re-use by patching "
+         "PackageMatcher.matches in the harness process; -c config files and optional includes of default.yaml are not generated.",
+         "3 (C04)", "E2 projgen, E5 pkgdump"),
+ "C20": ("exploration",
+         "Hypothesis project + Jenkins-configuration generation; invariant oracles on the job graph (own DFS, own reachability traversal) and round-trip oracle for the embedded job specification through the real encode/decode chain incl. Build-Ids",
+         "For generated projects (multiPackages, several variants per recipe, tool/sandbox providers, names that fold together) and "
+         "generated roots/prefix/isolate/sandbox settings the job graph must be acyclic and complete, dependencies must be built "
+         "upstream, and the decoded job spec must reproduce ids, scripts, environments, tools, arguments and workspace paths.",
+         "No Jenkins server involved (job calculation and spec only). A shared checkout/build step may be executed by several jobs; "
+         "the exactly-one-job rule is applied to package steps. One known finding (names folding to one job) is excluded and counted.",
+         "3 (C20)", "E2 projgen, E5 pkgdump"),
 }
 
 NOT_YET = {}
